@@ -329,3 +329,37 @@ def c10(chk):
     chk.assumptions += ["named deviations: method-specific ids may begin/end with ':' (pinned by the upstream positive proptest); "
                         "bare '?' / '#' are normalised away in DID URLs (pinned by upstream tests)",
                         "class representatives are interchangeable inside a class (2 variants per row are executed)"]
+
+
+# ------------------------------------------------------------------------------------------------
+# C17 — IOTA DIDs
+# ------------------------------------------------------------------------------------------------
+
+def flip_iota_case(rows, k=3):
+    out = []
+    for r in rows:
+        if r["row"]["kind"] == "parse" and r["out"].get("valid") and r["row"]["entry"] == "parse":
+            r = json.loads(json.dumps(r))
+            r["out"] = {"valid": False}
+            out.append(r)
+            if len(out) >= k:
+                break
+    if not out:
+        raise ToolError("canary: no valid parse row")
+    return out
+
+
+@plan("C17")
+def c17(chk):
+    chk.rule = ("TLC enumerates the full product method spelling x network name (class sequences incl. absent, empty, default in "
+                "any case, upper case, too long, illegal characters) x tag shape (length 0/63/64/65 x lower/upper/mixed/non-hex/"
+                "zeros x prefix 0x/0X/none) x surplus segment x trailing path/query/fragment x entry point (parse, "
+                "try_from_core, serde) and the IotaDID::new rows (network names via try_from and via serde x byte patterns); the "
+                "spec computes case-insensitive validity and the lowercase normal form. Every row is executed; accepted values "
+                "must be valid, be held in normal form, recompose from their accessors, re-parse to themselves; equality must "
+                "coincide with equality of (network, tag bytes) on all accepted pairs per chunk. One-sided judging.")
+    r = chk.mc("MCIotaDid", "IotaDid_%s.cfg" % chk.tier, workers=q(chk, 4, 8), timeout=600, heap="4g")
+    chk.replay(r["cases_file"], timeout=3000)
+    chk.canary_cases(r["cases_file"], flip_iota_case)
+    chk.assumptions += ["decision-table property: no recorded-trace direction; every table row is executed on the real code",
+                        "prefix_hex trusted for hex decoding of the 32 tag bytes"]
